@@ -30,10 +30,11 @@ def lex_identifier(s: "Scanner") -> None:
 
 
 def lex_quoted_string(s: "Scanner") -> None:
+    position = s.get_position()
     c = s.next()
     while c != "'":
         if c == "\n" or c is None:
-            raise ScannerException("Unterminated String", s.get_position())
+            raise ScannerException("Unterminated String", position)
 
         if c == "\\" and s.peek() == "'":
             s.next()
@@ -128,8 +129,9 @@ def lex_opcode_size(s: "Scanner") -> None:
 
         return lex_operand(s)
     else:
+        position = s.get_position()
         s.next()
-        raise ScannerException("Invalid Size Specifier", s.get_position())
+        raise ScannerException("Invalid Size Specifier", position)
 
 
 def lex_opcode(s: "Scanner") -> None:
